@@ -3,6 +3,8 @@
 (* hotstuff.NumFaulty / hotstuff.QuorumSize / RuntimeConfig.QuorumSize.                      *)
 (*   {"kind":"chunk","n0":k,"f":[..],"q":[..]}   values for n = n0, n0+1, ...                *)
 (*   {"kind":"config","n":k,"q":v}               RuntimeConfig with k replicas               *)
+(*   {"kind":"use","n":n,"what":"qc"|"tc","k":k,"ok":b}  real Verify* on a certificate with k *)
+(*                                                distinct valid signatures                    *)
 (* Pass A (PropertyOK): the numbers satisfy the property.  Pass B (ModelOK): they equal the  *)
 (* model's F and Q, which MC_Quorum / QuorumApa check for all n.                             *)
 EXTENDS Quorum, Sequences, Json, TLC
@@ -13,15 +15,20 @@ Next == l <= Len(Trace) /\ l' = l + 1
 Spec == Init /\ [][Next]_l
 
 Line == Trace[l]
+\* the quorum size the property defines for n (unique by minimality)
+PropQ(n) == CHOOSE q \in 0..(n + 1) : \E f \in 0..n : QuorumOK(n, f, q)
 ChunkProp(r) == \A i \in 1..Len(r.f) : QuorumOK(r.n0 + i - 1, r.f[i], r.q[i])
 ChunkModel(r) == \A i \in 1..Len(r.f) : r.f[i] = F(r.n0 + i - 1) /\ r.q[i] = Q(r.n0 + i - 1)
 
 PropertyOK == l <= Len(Trace) =>
     CASE Line.kind = "chunk" -> Len(Line.f) = Len(Line.q) /\ ChunkProp(Line)
       [] Line.kind = "config" -> \E f \in 0..Line.n : QuorumOK(Line.n, f, Line.q)
+      \* threshold use: a certificate with k distinct valid signatures is accepted iff k reaches THE quorum
+      [] Line.kind = "use" -> Line.ok <=> (Line.k >= PropQ(Line.n))
       [] OTHER -> FALSE
 ConformsToModel == l <= Len(Trace) =>
     CASE Line.kind = "chunk" -> ChunkModel(Line)
       [] Line.kind = "config" -> Line.q = Q(Line.n)
+      [] Line.kind = "use" -> Line.ok <=> (Line.k >= Q(Line.n))
       [] OTHER -> FALSE
 =============================================================================
